@@ -4,6 +4,7 @@ package c15
 import (
 	stdjson "encoding/json"
 	"fmt"
+	"io"
 	"reflect"
 	"strings"
 	"time"
@@ -310,6 +311,31 @@ func CheckInput(c *core.Check, src []byte, entries []entry, vec map[string]any) 
 		}
 		if m := wellFormed(o1.diags, len(src)); m != "" {
 			return bad("ill-formed-diagnostic", m)
+		}
+		// diagnostics with in-bounds ranges can be rendered with their source snippet
+		if len(o1.diags) > 0 {
+			or := run(func() (any, hcl.Diagnostics) {
+				files := map[string]*hcl.File{}
+				for _, d := range o1.diags {
+					if d.Subject != nil {
+						files[d.Subject.Filename] = &hcl.File{Bytes: src}
+					}
+				}
+				w := hcl.NewDiagnosticTextWriter(io.Discard, files, 78, false)
+				_ = w.WriteDiagnostics(o1.diags)
+				return 1, nil
+			})
+			if or.hung {
+				return bad("hang/text-writer", "rendering the diagnostics did not return")
+			}
+			if or.panic != nil {
+				msg := fmt.Sprint(or.panic)
+				if len(msg) > 70 {
+					msg = msg[:70]
+				}
+				c.Violation("panic/text-writer/"+en.name+"/"+msg, fmt.Sprintf("rendering the diagnostics of %s(%q) panicked: %v", en.name, src, or.panic), vec)
+				return false
+			}
 		}
 		o2 := run(func() (any, hcl.Diagnostics) { return en.fn(src) })
 		if o2.hung || o2.panic != nil {
